@@ -6,6 +6,48 @@
 #[cfg(kani)]
 pub mod util;
 #[cfg(kani)]
+pub mod c01;
+#[cfg(kani)]
 pub mod c02;
 #[cfg(kani)]
+pub mod files;
+#[cfg(kani)]
+pub mod c03;
+#[cfg(kani)]
+pub mod c03t;
+#[cfg(kani)]
 pub mod c04;
+#[cfg(kani)]
+pub mod c09;
+#[cfg(kani)]
+pub mod c09t;
+#[cfg(kani)]
+pub mod c10;
+#[cfg(kani)]
+pub mod c10t;
+#[cfg(kani)]
+pub mod hashref;
+#[cfg(kani)]
+pub mod c11;
+#[cfg(kani)]
+pub mod c11t;
+#[cfg(kani)]
+pub mod c12;
+#[cfg(kani)]
+pub mod c12t;
+#[cfg(kani)]
+pub mod c13;
+#[cfg(kani)]
+pub mod c13t;
+#[cfg(kani)]
+pub mod c14;
+#[cfg(kani)]
+pub mod c14t;
+#[cfg(kani)]
+pub mod c15;
+#[cfg(kani)]
+pub mod c15t;
+#[cfg(kani)]
+pub mod c16;
+#[cfg(kani)]
+pub mod c16t;
